@@ -59,6 +59,12 @@ CLAIMED["C05"] = {
     "note": "Characters of one class are indistinguishable to the lexer by construction of the partition; XID/emoji tables are parameters sampled through class members; numeric values of literals are C06's subject.",
     "technique": "TLA+ state machine of the lexer model-checked by TLC against declarative token definitions; TLC-generated runs replayed into Rust; TLC trace validation of hook-recorded lexer events",
 }
+CLAIMED["C10"] = {
+    "text": "LexerFeat.tla runs two copies of the lexer machine (plain and full-lexer) on every text <= 4/5 characters over a 12-class layout alphabet and TLC checks that filtering Comment/NonLogicalNewline tokens out of the full stream gives exactly the plain stream, with the same error and the same nesting/indentation state. The harness is built in the four feature configurations (default, full-lexer, all-nodes-with-ranges, num-bigint) and TLC-generated class strings (layout, strings, numbers alphabets), big integer literals in every radix, the curated programs and the corpus files are parsed in each; acceptance, tree (optional ranges ignored where the default build has none), mandatory ranges and error kind/offset must be identical, and lex(full) filtered must equal lex(default).",
+    "design_ref": "DESIGN.md section 6 C10",
+    "note": "The four builds differ only in cargo features of the repository crates; the soft-keyword transformer's start_of_line under full-lexer is exercised through programs with comments before match/case/type lines (and by the generator's layout variants once attached).",
+    "technique": "TLA+ product of two lexer machines model-checked by TLC (filter equivalence); differential replay of TLC-generated texts and programs across four feature builds",
+}
 NOT_YET = {}
 
 def main():
